@@ -6,7 +6,7 @@ import random
 import stat
 
 import fs_common as fs
-from common import hx, unhx
+from common import ImplementationHang, hx, unhx
 
 REQUIRED = [
     "Swh.C06.readNode_order_indep",
@@ -104,10 +104,10 @@ def check_cases(ctx, cases):
                     os.chdir(os.path.dirname(root))
                     spelled = os.path.basename(root) + b"/" * case["slashes"]
                 try:
-                    with fs.shuffled_scandir(lrng):
+                    with fs.shuffled_scandir(lrng), ctx.time_limit(60):
                         d = Directory.from_disk(path=spelled)
                     obs = observe(d, spec)
-                except (KeyError, ValueError, AttributeError, OSError, TypeError, RecursionError) as e:
+                except (KeyError, ValueError, AttributeError, OSError, TypeError, RecursionError, ImplementationHang) as e:
                     ctx.fail(case, f"reading the tree, or looking a node up by its path in the result, fails: {type(e).__name__}: {str(e)[:200]}", "read-or-lookup-fails:" + type(e).__name__)
                     impls.append(None)
                     reqs.append({"op": "ping"})
@@ -141,8 +141,9 @@ def check_cases(ctx, cases):
                 # ignoring empty directories == the tree without (recursively) empty directories, by git's rules
                 # (through the same spelling of the path: relative or absolute, with its trailing slashes)
                 try:
-                    d4 = Directory.from_disk(path=spelled, path_filter=from_disk.ignore_empty_directories)
-                except (KeyError, ValueError, OSError, TypeError) as e:
+                    with ctx.time_limit(60):
+                        d4 = Directory.from_disk(path=spelled, path_filter=from_disk.ignore_empty_directories)
+                except (KeyError, ValueError, OSError, TypeError, ImplementationHang) as e:
                     ctx.fail(case, f"reading with empty directories ignored raises {type(e).__name__}: {str(e)[:200]}", "ignore-empty-raises:" + type(e).__name__)
                     d4 = None
                 want4 = fs.expected_ids(fs.prune_empty(spec))[b""][1]
